@@ -241,6 +241,14 @@ func (b *Buffer) Read(packet []byte) (n int, err error) { //nolint:gocognit,cycl
 			}
 
 			b.count--
+			if b.count > 0 && !b.closed {
+				// More packets remain: pass the wake-up on, another reader may
+				// be waiting for a notification that was coalesced with ours.
+				select {
+				case b.notify <- struct{}{}:
+				default:
+				}
+			}
 			b.mutex.Unlock()
 
 			if copied < count {
